@@ -27,12 +27,12 @@ PROP = dict(
          "adjacent nodes, on the saturated line, on extended branches and at random points inside and up to 30% beyond the "
          "table range, each with double and Evaluation<double,3> arguments. Non-trivial: the deck is accepted, all six "
          "models initialise and at least 100 comparisons are made; distinct = distinct deck text.",
-    stages=[dict(harness="c14_pvt", flavour="plain", cases={Q: 100000, T: 2500000}, timeout={Q: 600, T: 5400}, omp_threads=1),
+    stages=[dict(harness="c14_pvt", flavour="plain", cases={Q: 100000, T: 1000000}, timeout={Q: 600, T: 5400}, omp_threads=1),
             dict(id="c14_pvt_asan", harness="c14_pvt", flavour="asan", cases={Q: 5000, T: 120000}, timeout={Q: 600, T: 5400},
                  omp_threads=1)],
-    min_nontrivial={Q: 95000, T: 2400000},
-    coverage_floor=[("c14_pvt", "comparisons", {Q: 150000000, T: 4000000000}),
-                    ("c14_pvt", "ad_derivative_comparisons", {Q: 40000000, T: 1000000000})],
+    min_nontrivial={Q: 95000, T: 760000},
+    coverage_floor=[("c14_pvt", "comparisons", {Q: 150000000, T: 1125000000}),
+                    ("c14_pvt", "ad_derivative_comparisons", {Q: 40000000, T: 300000000})],
     not_decided=["BlackOilFluidSystem (does not link here); CO2/H2/thermal/brine/humid approaches of the multiplexers",
                  "the values the models invent beyond a one-row undersaturated branch (master-table extension) are checked for "
                  "continuity at the saturated node, finiteness and derivative consistency only: no tabulated numbers exist there",
